@@ -138,6 +138,54 @@ Theorem C14_tick_iff_refuted_for_started_before_start_time :
 Proof. exact tick_iff_refuted_for_started_before_start_time. Qed.
 Print Assumptions C14_tick_iff_refuted_for_started_before_start_time.
 
+(** FAILING HOOKS.  One registered receiver panics on a chosen call (the first [lf] times).  The panic leaves
+    BeginBlocker (no recover on the path: Gen/C14Oblig.v), the block is not committed: *)
+Theorem C14_hook_panic_aborts_block :
+  forall (g : trigger) (s : state) (lf : nat) (t h : Z),
+    existsb (hook_matches g) (snd (begin_block s t h)) = true ->
+    step_f g (s, S lf) (Block t h) = ((s, lf), {| o_ok := false; o_infos := s; o_hooks := [] |}).
+Proof. exact abort_commits_nothing. Qed.
+Print Assumptions C14_hook_panic_aborts_block.
+
+(** … and a block that IS committed carries BeginBlocker's complete state change and complete hook list: *)
+Theorem C14_committed_block_is_complete :
+  forall (g : trigger) (s : state) (lf : nat) (t h : Z),
+    o_ok (snd (step_f g (s, lf) (Block t h))) = true ->
+    fst (fst (step_f g (s, lf) (Block t h))) = fst (begin_block s t h) /\
+    o_infos (snd (step_f g (s, lf) (Block t h))) = fst (begin_block s t h) /\
+    o_hooks (snd (step_f g (s, lf) (Block t h))) = snd (begin_block s t h).
+Proof. exact committed_block_is_complete. Qed.
+Print Assumptions C14_committed_block_is_complete.
+
+(** Hence along every history with a failing receiver every block is either aborted with nothing committed, or
+    committed and satisfies [P_block]: every committed advance n -> n+1 comes with AfterEpochEnd(n) then
+    BeforeEpochStart(n+1), each exactly once — and (next theorem) this very list is what EVERY receiver saw. *)
+Theorem C14_every_block_of_every_history_with_failing_hook :
+  forall (g : trigger) (ops : list op) (now : Z) (s : state) (lf : nat),
+    Inv now s -> ops_ok now ops -> P_trace s (combine ops (snd (run_f g (s, lf) ops))).
+Proof. exact trace_f_satisfies_property. Qed.
+Print Assumptions C14_every_block_of_every_history_with_failing_hook.
+
+Theorem C14_every_receiver_sees_the_committed_calls :
+  forall (k : nat) (l : list hook) (r : nat), (r < k)%nat ->
+    map snd (filter (fun x : nat * hook => Nat.eqb (fst x) r) (fanout k l)) = l.
+Proof. exact fanout_each_hook_sees_every_call. Qed.
+Print Assumptions C14_every_receiver_sees_the_committed_calls.
+
+(** the receiver-log checker evaluated on implementation traces is sound: every receiver's log of a committed
+    block is the call list receiver 0 saw (the one [Pb_trace] is evaluated on) *)
+Theorem C14_receivers_checker_sound :
+  forall (k : nat) (o : obs) (r : nat), fan_ok k o = true -> (r < k)%nat ->
+    map snd (filter (fun x : nat * hook => Nat.eqb (fst x) r) (b_log o)) = calls o.
+Proof. exact fan_ok_sound. Qed.
+Print Assumptions C14_receivers_checker_sound.
+
+Theorem C14_no_failures_is_the_plain_model :
+  forall (g : trigger) (ops : list op) (s : state),
+    snd (run_f g (s, O) ops) = snd (run s ops) /\ fst (fst (run_f g (s, O) ops)) = fst (run s ops).
+Proof. exact run_f_no_failures. Qed.
+Print Assumptions C14_no_failures_is_the_plain_model.
+
 (** The boolean checker evaluated on implementation traces is sound for the property … *)
 Theorem C14_checker_sound : forall s tr, Pb_trace s tr = true -> P_trace s tr.
 Proof. intros s tr. exact (Pb_trace_sound tr s). Qed.
